@@ -43,7 +43,7 @@ fn subsets(atoms: &[GroundAtom]) -> Vec<Atoms> {
 
 fn restrict(i: &Atoms, preds: &BTreeSet<Pred>) -> Atoms { i.iter().filter(|(p, a)| preds.contains(&(p.clone(), a.len()))).cloned().collect() }
 
-fn preds_of(p: &asp::Program) -> BTreeSet<Pred> { p.predicates().into_iter().map(|q| (q.symbol, q.arity)).collect() }
+fn preds_of(p: &asp::Program) -> BTreeSet<Pred> { crate::own::program_preds(p) }
 
 /// I (over the program's vocabulary) is a stable model of the program together with I's input facts
 fn stable(p: &asp::Program, i: &Atoms, inputs: &BTreeSet<Pred>, values: &[Val]) -> bool {
@@ -266,9 +266,9 @@ pub fn check_case(c: &Case, flag_sets: &[&[&str]], st: &mut VStats, fails: &mut 
         // C12: an axiom without any predicate of the task is one that anthem has added on its own (preamble, order of the symbols, whatever
         // it says about placeholders) - unless the task itself has formulas without predicates; it must be true in the standard
         // interpretation whatever the placeholders denote (general placeholders may denote #inf and #sup)
-        let user_predicate_free = ug.formulas().iter().any(|f| f.formula.predicates().is_empty())
-            || spec.as_ref().is_some_and(|s| s.formulas.iter().any(|f| f.formula.predicates().is_empty()))
-            || outline.as_ref().is_some_and(|s| s.formulas.iter().any(|f| f.formula.predicates().is_empty()))
+        let user_predicate_free = ug.formulas().iter().any(|f| crate::own::formula_preds(&f.formula).is_empty())
+            || spec.as_ref().is_some_and(|s| s.formulas.iter().any(|f| crate::own::formula_preds(&f.formula).is_empty()))
+            || outline.as_ref().is_some_and(|s| s.formulas.iter().any(|f| crate::own::formula_preds(&f.formula).is_empty()))
             || left.iter().chain(std::iter::once(&prog)).any(|p| p.rules.iter().any(|r| matches!(r.head, asp::Head::Falsity) && !r.body.formulas.iter().any(|f| matches!(f, asp::AtomicFormula::Literal(_)))));
         if !user_predicate_free {
             let phs: Vec<(String, fol::Sort)> = ug.placeholders().into_iter().map(|c| (c.name, c.sort)).collect();
@@ -280,7 +280,7 @@ pub fn check_case(c: &Case, flag_sets: &[&[&str]], st: &mut VStats, fails: &mut 
             let mut seen: BTreeSet<String> = BTreeSet::new();
             'own: for p in &problems {
                 for (name, role, f) in &p.formulas {
-                    if role != "axiom" || !f.predicates().is_empty() || !seen.insert(f.to_string()) { continue; }
+                    if role != "axiom" || !crate::own::formula_preds(f).is_empty() || !seen.insert(f.to_string()) { continue; }
                     for cm in &combos {
                         let m = Ht { here: Atoms::new(), there: Atoms::new(), consts: cm.clone() };
                         if !cl_sat(f, &dom, &m) {
@@ -307,7 +307,7 @@ pub fn check_case(c: &Case, flag_sets: &[&[&str]], st: &mut VStats, fails: &mut 
         // where a private predicate occurs on both sides, one of the two copies has been renamed: the extra declared name
         let mut expected: BTreeSet<Pred> = public.union(&priv_left).cloned().collect::<BTreeSet<_>>().union(&priv_prog).cloned().collect();
         // predicates introduced by the definitions of the proof outline
-        if let Some(o) = &outline { for f in &o.formulas { if f.role == fol::Role::Definition { for q in f.formula.predicates() { expected.insert((q.symbol, q.arity)); } } } }
+        if let Some(o) = &outline { for f in &o.formulas { if f.role == fol::Role::Definition { for q in crate::own::formula_preds(&f.formula) { expected.insert(q); } } } }
         let extra: Vec<Pred> = names.difference(&expected).cloned().collect();
         let missing: Vec<Pred> = expected.difference(&names).cloned().collect();
         let mappings: Vec<(HashMap<Pred, Pred>, HashMap<Pred, Pred>)> = {
